@@ -32,7 +32,7 @@ MINIMUMS = {
     "thorough": {"distinct_nontrivial": 50000, "pairs_compared": 90000, "edit:class-edit": 8000, "edit:meta-content": 2500, "edit:meta-insert": 2500, "edit:explicit-default": 8000, "edit:ignored-param": 8000, "edit:env": 1500, "controls_changed": 8000},
 }
 N = {"quick": 700, "thorough": 24000}
-TIMEOUT = {"quick": 900, "thorough": 10800}
+TIMEOUT = {"quick": 2400, "thorough": 14400}
 
 
 def new_steps(recipe):
